@@ -5,6 +5,7 @@ from chancommon import KIND, CASE_WALL, run_impl, shrink_candidates, classify_co
 
 SPECS = ["C06"]
 THEOREMS = ["C06.op_spec", "C06.case_spec", "C06.no_timeout_op", "C06.rut_exact", "C06.rut_ok_exact", "C06.rut_never_timeout", "C06.send_deadline", "C06.read_deadline", "C06.c06_deadline", "C06.c06_timeout_exact", "C06.c06_no_timeout"]
+AUX = ["C06S"]   # the one transport with deadline logic of its own: SubprocessChannelIO.read/write (select loop)
 QUICK_N, THOROUGH_N = 6000, 100000
 QUICK_BUDGET, THOROUGH_BUDGET = 40, 900
 RULE = ("random arrival schedules (steady trickles with period below/at/above T, bursts, arrival exactly at the deadline, "
